@@ -15,13 +15,10 @@ from common import REPO, lean_driver, rng
 from oracle import DatasetView, LeanOracle, amaku_solution
 
 NEEDS_DATASET = True
-TARGETS = ["RdVerif.Props.C04"]
-THEOREMS = ["RdVerif.C04.exact_inverses", "RdVerif.C04.exact_diagonalises", "RdVerif.C04.rates_from_half_lives", "RdVerif.C04.graph_and_listed_data_ok", "RdVerif.C04.parents_is_transpose", "RdVerif.C04.pattern_is_ancestors", "RdVerif.C04.float_entries_close", "RdVerif.C04.float_aggregate_bound", "RdVerif.C04.float_decay_consts_close", "RdVerif.C04.float_masses_close", "RdVerif.C04.pickles_identical", "RdVerif.C04.year_close"]
-PARTIAL = {
-    "float_aggregate_bound": "kernel-checked bound on Σ_k|ĈĈ⁻¹−CC⁻¹| ≤ 4e-12 and Σ_k|CC⁻¹| ≤ 1000 for all (i,j); the step from "
-                             "these numbers to 'contribution to any decay result ≤ 5e-12·N(0)' is the triangle inequality with "
-                             "0 ≤ e^{-λt} ≤ 1 and x·e^{-x} ≤ 1/e, stated in DESIGN.md §3.4, not yet a Lean theorem",
-}
+TARGETS = ["RdVerif.Props.C04", "RdVerif.Props.C04Error"]
+THEOREMS = ["RdVerif.C04.exact_inverses", "RdVerif.C04.exact_diagonalises", "RdVerif.C04.rates_from_half_lives", "RdVerif.C04.graph_and_listed_data_ok", "RdVerif.C04.parents_is_transpose", "RdVerif.C04.pattern_is_ancestors", "RdVerif.C04.float_entries_close", "RdVerif.C04.float_aggregate_bound", "RdVerif.C04.float_decay_consts_close", "RdVerif.C04.float_masses_close", "RdVerif.C04.pickles_identical", "RdVerif.C04.year_close",
+            "RdVerif.C04.float_data_contribution", "RdVerif.C04.ln2_constants_certified"]
+PARTIAL = {}
 ASSUMPTIONS = [
     "numpy.load / scipy.sparse.load_npz / pickle opcode stream are read correctly by the translator",
     "decimal reading of a listed half-life / branching fraction = shortest repr of the stored double",
